@@ -76,6 +76,13 @@ CULPRITS = {
         ("twin_surrogates", lambda o: o.twin_surrogates(1, 2)),
         ("twins", lambda o: o.twins(2))],
     "ClimateData": [("shuffled_anomaly", lambda o: o.shuffled_anomaly())],
+    "EventSeries": [
+        ("event_analysis_significance(ES,shuffle)",
+         lambda o: o.event_analysis_significance(
+             method="ES", surrogate="shuffle", n_surr=2)),
+        ("event_analysis_significance(ECA,shuffle)",
+         lambda o: o.event_analysis_significance(
+             method="ECA", surrogate="shuffle", n_surr=2))],
 }
 NET_CULPRITS = [
     ("copy", lambda o: o.copy()),
